@@ -99,6 +99,83 @@ Proof.
   exists m. split; [exact Em|]. eapply parsed_tree_wf; eauto.
 Qed.
 
+(* ---- the two transcriptions of Simplify agree ------------------------------------------------------------------- *)
+
+Definition R (x : S.node) (y : E.node) : Prop := conv x = Some y.
+
+Lemma all_some_F2 : forall l l', all_some (map conv l) = Some l' <-> Forall2 R l l'.
+Proof.
+  induction l as [|x l IH]; intros l'; cbn [map all_some].
+  - split; [intros H; inversion H; constructor|intros H; inversion H; reflexivity].
+  - split.
+    + destruct (conv x) as [y|] eqn:E; [|discriminate]. destruct (all_some (map conv l)) as [r|] eqn:A; [|discriminate].
+      intros H. inversion H; subst. constructor; [exact E|]. apply IH. reflexivity.
+    + intros H. inversion H as [|? y ? r Hx Hr]; subst. unfold R in Hx. rewrite Hx.
+      apply IH in Hr. rewrite Hr. reflexivity.
+Qed.
+
+Lemma conv_comb b l l' : Forall2 R l l' -> conv (S.Comb b l) = Some (E.Comb (conv_b b) l').
+Proof. intros H. cbn [conv]. apply all_some_F2 in H. rewrite H. reflexivity. Qed.
+
+Lemma bop_eqb_conv b1 b2 : E.bop_eqb (conv_b b1) (conv_b b2) = S.boolop_eqb b1 b2.
+Proof. destruct b1, b2; reflexivity. Qed.
+
+Lemma promote_F2 b x y : R x y -> Forall2 R (CqlPrinter.promote b x) (E.promote (conv_b b) y).
+Proof.
+  intros H. unfold R in H. destruct x as [pt k o v|b' gc].
+  - assert (Hc := H). cbn [conv] in H. destruct (conv_pt pt), (conv_op o); inversion H; subst.
+    cbn [CqlPrinter.promote E.promote]. constructor; [exact Hc|constructor].
+  - cbn [conv] in H. destruct (all_some (map conv gc)) as [l|] eqn:A; inversion H; subst.
+    cbn [CqlPrinter.promote E.promote]. rewrite bop_eqb_conv. destruct (S.boolop_eqb b' b).
+    + apply all_some_F2. exact A.
+    + constructor; [|constructor]. unfold R. cbn [conv]. rewrite A. reflexivity.
+Qed.
+
+Lemma flat_promote_F2 b : forall xs ys, Forall2 R xs ys ->
+  Forall2 R (flat_map (CqlPrinter.promote b) xs) (flat_map (E.promote (conv_b b)) ys).
+Proof.
+  induction 1 as [|x y xs ys Hxy _ IH]; [constructor|]. cbn [flat_map]. apply Forall2_app; [apply promote_F2; exact Hxy|exact IH].
+Qed.
+
+Definition Ro (x : option S.node) (y : option E.node) : Prop :=
+  match x, y with None, None => True | Some a, Some b => R a b | _, _ => False end.
+
+Lemma finish_F2 b xs ys : Forall2 R xs ys -> Ro (CqlPrinter.finish b xs) (E.finish (conv_b b) ys).
+Proof.
+  intros H. destruct H as [|x y xs ys Hxy H]; [exact I|].
+  destruct H as [|x2 y2 xs ys Hxy2 H]; [exact Hxy|].
+  cbn [CqlPrinter.finish E.finish Ro]. apply conv_comb. constructor; [exact Hxy|]. constructor; assumption.
+Qed.
+
+(* Simplify of the parser model and Simplify of the evaluation model are the same function under [conv] *)
+Theorem simplify_agrees : forall n m, conv n = Some m -> Ro (CqlPrinter.simplify n) (E.simplify m).
+Proof.
+  induction n as [pt k o v|b ch IH] using CqlSimplifyProofs.node_ind'; intros m H.
+  - cbn [conv] in H. destruct (conv_pt pt) eqn:Ep, (conv_op o) eqn:Eo; inversion H; subst.
+    cbn [CqlPrinter.simplify E.simplify Ro]. unfold R. cbn [conv]. rewrite Ep, Eo. reflexivity.
+  - cbn [conv] in H. destruct (all_some (map conv ch)) as [l|] eqn:A; inversion H; subst.
+    apply all_some_F2 in A. cbn [CqlPrinter.simplify E.simplify].
+    apply finish_F2. apply flat_promote_F2.
+    clear H. induction A as [|x y xs ys Hxy A IHA]; [constructor|].
+    inversion IH as [|? ? Hx Hxs]; subst. cbn [map CqlPrinter.keep_some E.keep_some].
+    pose proof (Hx y Hxy) as Hr. specialize (IHA Hxs).
+    destruct (CqlPrinter.simplify x), (E.simplify y); cbn [Ro] in Hr; try contradiction;
+      cbn [CqlPrinter.keep_some E.keep_some]; [constructor; assumption|exact IHA].
+Qed.
+
+(* from the query TEXT: what lexer, parser and visitor build for a text, once the validator admits it, is simplified to
+   the same root in both models and evaluates to a boolean on every typed contact *)
+Theorem parsed_text_total : forall e s n m e' r c,
+  P.parse_front e s = P.FTree n -> conv n = Some m ->
+  E.validate e' r m = None -> CqlEvalProofs.typed_contact r c ->
+  Ro (CqlPrinter.simplify n) (E.simplify m)
+  /\ exists b, E.eval_root e' r (E.query_property c) (E.simplify m) = E.RBool b.
+Proof.
+  intros e s n m e' r c F Hc Hv Ht. split; [apply simplify_agrees; exact Hc|].
+  pose proof (parsed_tree_wf e s n m F Hc) as Hw.
+  destruct (CqlEvalProofs.parsed_query_total e' r m c Hw Hv Ht) as (q' & b & _ & Hb & _). exists b. exact Hb.
+Qed.
+
 Example conv_example :
   conv (S.Comb S.BAnd [S.Cond S.PAttr [110; 97; 109; 101]%N S.OpEqual [98]%N; S.Cond S.PField [120]%N S.OpGreaterThan [49]%N])
   = Some (E.Comb E.BAnd [E.Cond E.PAttr [110; 97; 109; 101]%N E.OpEq [98]%N; E.Cond E.PField [120]%N E.OpGt [49]%N]).
